@@ -23,6 +23,7 @@ import typing as t
 import pane
 from pane.annotations import Condition, Tagged
 import pane.annotations as pa
+import pane.types as _ptypes
 
 try:
     import numpy as _np
@@ -48,6 +49,7 @@ POOL: dict[str, t.Union[str, bytes]] = {
     's_sp': '  padded  ', 's_yes': 'yes', 's_null': 'null', 's_tilde': '~', 's_1e3': '1e3',
     's_colon': ': #', 's_t': 't', 's_kind': 'kind', 's_x': 'x', 's_y': 'y', 's_z': 'z',
     's_w': 'w', 's_v': 'v', 's_W': 'W', 's_X': 'X', 's_ab_cd': 'ab_cd', 's_abCd': 'abCd', 's_AbCd': 'AbCd', 's_ab_cd_k': 'ab-cd', 's_AB_CD': 'AB_CD', 's_nfrac': '-3/4', 's_abc': 'abc', 's_v1': 'v1', 's_v2': 'v2', 's_v3': 'v3',
+    's_start': 'start', 's_end': 'end', 's_n': 'n', 's_step': 'step',
     'b_x': b'xyz', 'b_empty': b'', 'b_re': b'a+', 'b_badre': b'(',
 }
 _by_text: dict[t.Union[str, bytes], str] = {}
@@ -284,6 +286,8 @@ def abstract(x: t.Any) -> dict:
         return {'k': 'enum', 'e': ty.__name__, 'i': list(ty.__members__.values()).index(x) + 1}
     if _np is not None and ty is _np.ndarray:
         return {'k': 'ndarray', 'shape': list(x.shape), 'xs': [abstract(e) for e in x.ravel().tolist()]}
+    if ty is _ptypes.ValueOrList:
+        return {'k': 'vol', 'one': 'T' if x._is_val else 'F', 'x': abstract(x._inner)}
     if isinstance(x, pane.PaneBase):
         info = ty.__pane_info__
         fs = []
@@ -379,6 +383,8 @@ def concretise(a: dict) -> t.Any:
         return list(ENUM_CLASSES[a['e']].__members__.values())[a['i'] - 1]
     if k == 'sub':
         return SUB_CLASSES[a['c']](concretise(a['x']))
+    if k == 'vol':
+        return _ptypes.ValueOrList(concretise(a['x']), a['one'] == 'T')
     raise OutOfVocab(f'cannot concretise {k}')
 
 
@@ -615,7 +621,14 @@ def _concretise_type(T: dict, sp: int, lit_ok: bool = True) -> t.Any:
         ext: t.Any = False if lay == 'int' else True if lay == 'ext' else (text(T['tk']), text(T['ck']))
         return t.Annotated[t.Union[tuple(vs)], Tagged(text(T['tag']), ext)]
     if k == 'cls':
+        if T['hook']['k'] == 'rangehook':       # the shipped pane.types.Range, parameterized by its number type
+            return _ptypes.Range[{'int': int, 'float': float}[T['fs'][0]['t']['k']]]
         return make_class(T, sp)
+    if k == 'vol':
+        E = sub(T['e'])
+        if isinstance(E, (dict, tuple)):
+            raise OutOfVocab('type literal as a type argument')
+        return _ptypes.ValueOrList[E]
     if k == 'ndarray':
         if _np is None:
             raise OutOfVocab('numpy missing')
